@@ -46,6 +46,7 @@ def dispatch (line : String) : String :=
     | "client" => ClientOp.clientOp args
     | "tls" => C06.tlsOp args
     | "pool" => PoolOp.poolOp args
+    | "tconn" => PoolOp.tconnOp args
     | "wstall" => PoolOp.wstallOp args
     | "ctor" => C06.ctorOp args
     | "racc" => C15.raccOp args
